@@ -57,7 +57,7 @@ def gen_case(r, i=0):
     for l in labs:
         for _ in range(1 if r.random() < 0.7 else r.randint(2, 3)):
             defs.append([variant(r, l), "/u%d" % len(defs), r.choice([None, None, "T%d" % len(defs)]),
-                         r.choice(["top", "top", "quote", "list", "olist", "quote-list", "deep", "deep6", "note", "note-quote"])])
+                         r.choice(["top", "top", "quote", "list", "olist", "quote-list", "deep", "deep6", "note", "note-quote", "rst-note", "rst-note-ragged"])])
     r.shuffle(defs)
     for j, d in enumerate(defs):
         d[1] = "/u%d" % j
@@ -78,7 +78,7 @@ def gen_case(r, i=0):
             lab, url, title, place = defs[j]
             line = "[%s]: %s%s" % (lab, url, (' "%s"' % title) if title else "")
             if "\n" in lab:
-                place = "top" if place in ("quote", "quote-list", "deep", "deep6", "note", "note-quote") else place
+                place = "top" if place in ("quote", "quote-list", "deep", "deep6", "note", "note-quote", "rst-note", "rst-note-ragged") else place
                 defs[j][3] = place  # (the recorded placement is what collection_order reads)
             if place == "top":
                 out.append(line.replace("\n", "\n") + "\n")
@@ -95,6 +95,11 @@ def gen_case(r, i=0):
                 out.append("```{note}\n" + line + "\n```\n")
             elif place == "note-quote":
                 out.append("```{note} Title\n> " + line + "\n```\n")
+            elif place == "rst-note":
+                out.append(".. note:: T\n\n   " + line + "\n")
+            elif place == "rst-note-ragged":
+                # the lines of a directive body need not be indented alike: a first line indented deeper than the definition
+                out.append(".. tip::\n\n     body begins deeper\n\n   " + line + "\n\n    and goes on\n")
             elif place == "deep6":
                 # exactly max_nested_level containers, any mix of markers, first one a quote
                 out.append("> " + "".join(r.choice(["> ", "- ", "1. "]) for _ in range(5)) + line + "\n")
@@ -137,8 +142,9 @@ def gen_case(r, i=0):
 def _converter(m, kind, footnotes=False, notes=False):
     plugins = ["footnotes"] if footnotes else []
     if notes:
-        from mistune.directives import FencedDirective, Admonition
+        from mistune.directives import FencedDirective, RSTDirective, Admonition
         plugins.append(FencedDirective([Admonition()]))
+        plugins.append(RSTDirective([Admonition()]))
     md = m.create_markdown(plugins=plugins or None)
     if kind == "toc-hook":
         # the TOC hook parses heading texts a second time, before the document's inline pass
@@ -150,7 +156,7 @@ def _converter(m, kind, footnotes=False, notes=False):
 def observe(m, case):
     doc = case["doc"]
     kind = "toc-hook" if sum(map(ord, doc)) % 3 == 0 else "plain"
-    md = _converter(m, kind, "[^" in doc, "```{note}" in doc)
+    md = _converter(m, kind, "[^" in doc, "```{note}" in doc or ".. note::" in doc or ".. tip::" in doc)
     out = md(doc)
     res = []
     for j, (lab, form, place) in enumerate(case["uses"]):
@@ -174,7 +180,7 @@ def collection_order(defs_in_blocks):
     i = 0
     while i + 1 < len(out):
         a, b = out[i], out[i + 1]
-        if a[0] == "def" and b[0] == "def" and a[1][3] in ("list", "olist") and b[1][3] in ("quote", "quote-list", "deep", "deep6", "note", "note-quote"):
+        if a[0] == "def" and b[0] == "def" and a[1][3] in ("list", "olist") and b[1][3] in ("quote", "quote-list", "deep", "deep6", "note", "note-quote"):   # (an RST directive does not interrupt a list item)
             out[i], out[i + 1] = b, a
             i += 2
         else:
